@@ -417,6 +417,10 @@ impl Context {
 
 impl Fill for Context {
     fn fill_interleaved(&mut self, interleaved: &[i32]) -> Result<(), SourceError> {
+        if self.channels == 0 {
+            // `Context::new` cannot refuse; samples of zero channels cannot be counted.
+            return Err(SourceError::by_reason(SourceErrorReason::InvalidFormat));
+        }
         if interleaved.is_empty() {
             return Ok(());
         }
@@ -430,8 +434,9 @@ impl Fill for Context {
 
     #[inline]
     fn fill_le_bytes(&mut self, bytes: &[u8], bytes_per_sample: usize) -> Result<(), SourceError> {
-        if bytes_per_sample != self.bytes_per_sample {
-            // the bytes would be hashed and counted with a wrong sample width.
+        if bytes_per_sample != self.bytes_per_sample || self.channels == 0 {
+            // the bytes would be hashed and counted with a wrong sample width
+            // (or cannot be counted at all).
             return Err(SourceError::by_reason(SourceErrorReason::InvalidFormat));
         }
         if bytes.is_empty() {
